@@ -3,7 +3,10 @@ package ledger
 import (
 	"bytes"
 	"fmt"
+	"github.com/nspcc-dev/dbft"
+	"github.com/nspcc-dev/neo-go/pkg/crypto/keys"
 	"math/big"
+	"sort"
 	"time"
 
 	"github.com/nspcc-dev/neo-go/pkg/consensus"
@@ -549,7 +552,7 @@ func (s *netSim) checkReencode(msg *network.Message, raw []byte) {
 // validator sent and the transport delivered unaltered must decode, and re-encoding the decoded message must give
 // exactly the bytes that were signed; whatever decodes at all (altered bytes included) must re-encode to something that
 // decodes to the same bytes again.
-func (s *netSim) checkConsensusPayload(e *payload.Extensible, altered bool) {
+func (s *netSim) checkConsensusPayload(e *payload.Extensible, altered bool, to int) {
 	if e.Category != payload.ConsensusCategory {
 		return
 	}
@@ -602,6 +605,9 @@ func (s *netSim) checkConsensusPayload(e *payload.Extensible, altered bool) {
 			return
 		}
 		r.out.Probes[fmt.Sprintf("consensus_payload_checked/%#x", first(orig))]++
+		if !altered {
+			viol = s.checkRecoveredIdentity(p, e, to)
+		}
 	}); pv != nil {
 		pv.Msg = "decoding / re-encoding a consensus payload panicked: " + pv.Msg
 		r.violate(pv)
@@ -610,6 +616,87 @@ func (s *netSim) checkConsensusPayload(e *payload.Extensible, altered bool) {
 	if viol != nil {
 		r.violate(viol)
 	}
+}
+
+// checkRecoveredIdentity: the identity of a consensus payload does not depend on the path. Every payload delivered
+// directly is remembered by (height, validator, type, view); the ChangeViews and the PrepareRequest a node restores
+// from a RecoveryMessage must hash to exactly what their senders signed and sent directly.
+func (s *netSim) checkRecoveredIdentity(p *consensus.Payload, e *payload.Extensible, to int) *sim.Violation {
+	type key = [4]uint32
+	if s.directPayloads == nil {
+		s.directPayloads = map[key]util.Uint256{}
+		s.directCVs = map[string]util.Uint256{}
+	}
+	// (a validator re-sends its ChangeView with a new timestamp on every timeout: ChangeViews are told apart by it)
+	cvKey := func(height uint32, vi uint16, view uint32, data []byte) string {
+		if len(data) < 15 {
+			return ""
+		}
+		return fmt.Sprintf("%d/%d/%d/%x", height, vi, view, data[7:15])
+	}
+	if p.Type() != dbft.RecoveryMessageType {
+		view := uint32(p.ViewNumber())
+		if p.Type() == dbft.ChangeViewType && p.GetChangeView().Reason() != dbft.CVTimeout {
+			// the compact form inside a RecoveryMessage does not carry the reason: what is restored from it is a
+			// ChangeView with reason Timeout, i.e. other content (and another hash) by design of the protocol
+			s.r.out.Probes["changeview_with_reason_not_comparable"]++
+			return nil
+		}
+		if p.Type() == dbft.ChangeViewType {
+			s.directCVs[cvKey(p.Height(), p.ValidatorIndex(), view, e.Data)] = e.Hash()
+		}
+		s.directPayloads[key{p.Height(), uint32(p.ValidatorIndex()), uint32(p.Type()), view}] = e.Hash()
+		if s.directData == nil {
+			s.directData = map[util.Uint256]string{}
+		}
+		s.directData[e.Hash()] = fmt.Sprintf("data=%x vbs=%d vbe=%d sender=%s", e.Data, e.ValidBlockStart, e.ValidBlockEnd, e.Sender.StringLE()[:8])
+		return nil
+	}
+	bc := s.nodes[to].n.BC
+	if bc.BlockHeight()+1 != p.Height() {
+		return nil
+	}
+	vals, err := bc.GetNextBlockValidators()
+	if err != nil {
+		return nil
+	}
+	sort.Sort(keys.PublicKeys(vals))
+	pubs := make([]dbft.PublicKey, len(vals))
+	for i := range vals {
+		pubs[i] = vals[i]
+	}
+	rm := p.GetRecoveryMessage()
+	for _, cv := range rm.GetChangeViews(p, pubs) {
+		cp, ok := cv.(*consensus.Payload)
+		if !ok || cp == nil {
+			continue
+		}
+		orig := uint32(cp.GetChangeView().NewViewNumber()) - 1
+		rh := cp.Hash() // (serialises the restored message into cp.Data)
+		if h, ok := s.directCVs[cvKey(cp.Height(), cp.ValidatorIndex(), orig, cp.Data)]; ok {
+			_ = rh
+			s.r.out.Probes["recovered_changeview_compared"]++
+			if h != cp.Hash() {
+				s.r.log.Addf("direct: %s; restored: data=%x vbs=%d vbe=%d sender=%s", s.directData[h], cp.Data, cp.ValidBlockStart, cp.ValidBlockEnd, cp.Sender.StringLE()[:8])
+				return sim.Violatef("c17-identity", "c17-identity/recovered-changeview", "the ChangeView of validator %d for view %d at height %d has hash %s when it arrives directly and %s when it is restored from validator %d's RecoveryMessage (sent in view %d)", cp.ValidatorIndex(), orig, cp.Height(), h.StringLE()[:10], cp.Hash().StringLE()[:10], p.ValidatorIndex(), p.ViewNumber()) // details below
+			}
+		}
+	}
+	pi := (int(p.Height()) - int(p.ViewNumber())) % len(pubs)
+	if pi < 0 {
+		pi += len(pubs)
+	}
+	if pr := rm.GetPrepareRequest(p, pubs, uint16(pi)); pr != nil {
+		if cp, ok := pr.(*consensus.Payload); ok && cp != nil {
+			if h, ok := s.directPayloads[key{cp.Height(), uint32(cp.ValidatorIndex()), uint32(dbft.PrepareRequestType), uint32(cp.ViewNumber())}]; ok {
+				s.r.out.Probes["recovered_preparerequest_compared"]++
+				if h != cp.Hash() {
+					return sim.Violatef("c17-identity", "c17-identity/recovered-preparerequest", "the PrepareRequest of validator %d (height %d, view %d) has hash %s when it arrives directly and %s when it is restored from a RecoveryMessage", cp.ValidatorIndex(), cp.Height(), cp.ViewNumber(), h.StringLE()[:10], cp.Hash().StringLE()[:10])
+				}
+			}
+		}
+	}
+	return nil
 }
 
 func first(b []byte) byte {
